@@ -7,5 +7,6 @@ std::size_t use_c17() {
     parmcb::SpVecGF2<std::size_t> d(a);
     c = a + b;
     c += a;
+    d = {};                 // R17d positive: with the unit-assignment overload of the broken copy this is the unit vector {0}
     return (a * b) + (a * s) + c.size() + d.size();
 }
